@@ -32,6 +32,7 @@ func gen(t *rapid.T) peng.Case {
 		c.Threads = 3
 	}
 	c.GoMaxProcs = rapid.SampledFrom([]int{0, 2, 4, 16}).Draw(t, "gomaxprocs")
+	c.Jitter = peng.GenJitter(t)
 	nops := rapid.IntRange(b.MinOps, b.MaxOps).Draw(t, "nops")
 	for i := 0; i < nops; i++ {
 		switch rapid.IntRange(0, 11).Draw(t, fmt.Sprintf("opkind%d", i)) {
